@@ -172,7 +172,205 @@ def build_invariant(p):
     return {"contracts": [t, c], "test": isig, "truth": "invariant", "K": K, "concrete_loop": False}
 
 
-BUILDERS = {"regular": build_regular, "depth": build_depth, "width": build_width, "setup": build_setup, "invariant": build_invariant}
+# ----------------------------------------------------------------------------- several tests in one run (per-test attribution)
+
+def run_merged(project, options=(), timeout=120):
+    """like l3.Project.run, but stderr (the 'halmos' logger) is merged INTO stdout, unbuffered, so that the
+    order of warnings and result lines is the order in which halmos produced them -> l3.Result over the merged text"""
+    import json
+    import os
+    import subprocess
+
+    from harness import common
+
+    js = project.dir / "result.json"
+    if js.exists():
+        js.unlink()
+    argv = ["--root", str(project.dir), "--json-output", str(js), "--no-status", *map(str, options)]
+    env = dict(os.environ)
+    env["PATH"] = f"{project.dir / 'stubbin'}:/venv/bin:" + env.get("PATH", "")
+    env.update(PYTHONPATH=str(common.REPO / "src"), PYTHONHASHSEED="0", COLUMNS="100000", NO_COLOR="1", TERM="dumb",
+               HOME=str(project.dir), PYTHONUNBUFFERED="1")
+    try:
+        p = subprocess.run([common.PY, "-m", "halmos", *argv], cwd=project.dir, env=env, stdout=subprocess.PIPE, stderr=subprocess.STDOUT, text=True, timeout=timeout)
+        rc, out = p.returncode, p.stdout
+    except subprocess.TimeoutExpired as e:
+        rc = -9
+        out = ((e.stdout or b"").decode(errors="replace") if isinstance(e.stdout, bytes) else (e.stdout or "")) + "\nHARNESS-TIMEOUT"
+    data = None
+    if js.exists():
+        try:
+            data = json.loads(js.read_text())
+        except Exception:  # noqa: BLE001
+            data = None
+    return l3.Result(rc, out, "", data, argv)
+
+
+def attribute(text, contracts):
+    """Which incompleteness reports concern which test?  (the SPEC side: independent of how halmos words them)
+    `contracts`: {contract name: [test signatures]}.  A report line (l3.WARNING_KINDS needle) printed while
+    contract C is being run belongs to test S of C when it names S (`S:` occurs in the line), or -- when it
+    names no test of C -- when it was printed while S was running, i.e. after the result line of the
+    previous test of C and before the result line of S.  Lines about setUp printed before the first test of C
+    belong to every test of C.
+    -> {"C:S": {"status": str|None, "paths": int|None, "warnings": [kinds]}}"""
+    import re
+
+    out = {f"{c}:{s}": {"status": None, "paths": None, "warnings": set()} for c, sigs in contracts.items() for s in sigs}
+    cur = None            # contract being run
+    pending = []          # anonymous report kinds since the last result line of `cur`
+    started = False       # has a test of `cur` printed its result yet
+    for ln in ANSI_RE.sub("", text).splitlines():
+        m = re.search(r"Running \d+ tests? for \S*?:(\w+)\s*$", ln.strip())
+        if m:
+            cur, pending, started = m.group(1), [], False
+            continue
+        if cur not in contracts:
+            continue
+        ms = l3.STATUS_RE.match(ln.strip())
+        if ms and f"{cur}:{ms.group(2)}" in out:
+            u = out[f"{cur}:{ms.group(2)}"]
+            u["status"], u["paths"] = ms.group(1), int(ms.group(3)) if ms.group(3) else None
+            u["warnings"] |= set(pending)
+            pending, started = [], True
+            continue
+        kinds = [k for k, needle in l3.WARNING_KINDS if needle in ln]
+        if not kinds:
+            continue
+        named = [s for s in contracts[cur] if (s + ":") in ln]
+        if named:
+            for s in named:
+                out[f"{cur}:{s}"]["warnings"] |= set(kinds)
+        elif "setUp" in ln and not started:
+            for s in contracts[cur]:
+                out[f"{cur}:{s}"]["warnings"] |= set(kinds)
+        else:
+            pending += kinds
+    return {k: {**v, "warnings": sorted(v["warnings"])} for k, v in out.items()}
+
+
+ANSI_RE = l3.ANSI_RE
+
+
+def sig_types(s):
+    return [t for t in s.split("(")[1].rstrip(")").split(",") if t]
+
+
+def short_long_body(n, tag, tail):
+    """stack: empty.  if (x != 0) STOP;  a concrete loop of n iterations;  `tail`"""
+    return [("push", 4), "CALLDATALOAD", "ISZERO", ("ref", f"LONG{tag}"), "JUMPI", "STOP", ("label", f"LONG{tag}")] + \
+        loop_items(["const", n], "while", tag) + ["POP"] + tail
+
+
+def build_depth_multi(p):
+    """several tests with the SAME body (short successful path; long path cut by --depth, ending in Panic(1)):
+    overloads of one name, a differently named control, and the same signature again in a second contract.
+    Every one of them loses its failing path to the step limit: every one must carry its own report."""
+    contracts, units = [], []
+    for cname, sigs in p["layout"]:
+        items = l3.dispatcher([(s, "F") for s in sigs])
+        items += [("label", "F"), "POP"] + short_long_body(p["n"], "a", l3.panic_items(1))
+        rt = assemble(items)
+        contracts.append(l3.Contract(cname, [(s.split("(")[0], sig_types(s)) for s in sigs], rt, path=f"test/{cname}.sol"))
+        for s in sigs:
+            truth = [[[l3.FOUNDRY_TEST, (l3.selector(s) + x.to_bytes(32, "big") + b"\0" * (32 * (len(sig_types(s)) - 1))).hex()]] for x in (0, 1)]
+            units.append({"contract": cname, "sig": s, "truth": truth, "runtime": rt.hex()})
+    return {"contracts": contracts, "units": units, "test": units[0]["sig"], "truth": units[0]["truth"], "concrete_loop": True}
+
+
+# an "unsupported feature": a memory access whose offset / size is a symbolic term (NotConcreteError, a
+# HalmosException): halmos cannot continue the path, the reference interpreter just executes it
+def unsupported_items(kind, get_x):
+    if kind == "mstore_sym":      # mstore(x, 1)
+        return [("push", 1)] + get_x + ["MSTORE"]
+    if kind == "mload_sym":       # pop(mload(x))
+        return get_x + ["MLOAD", "POP"]
+    if kind == "sha3_sym":        # pop(keccak(0, x))  -- symbolic size
+        return get_x + ["PUSH0", "SHA3", "POP"]
+    raise ValueError(kind)
+
+
+def build_stuck(p):
+    """check_stuck(uint256 x): if (x == 77) STOP;  <unsupported feature, at call depth `where`>;  Panic(1).
+    where: "top" (in the test body), "call" / "staticcall" / "delegatecall" (in a helper the test calls with its own
+    calldata), "create" (in the constructor of a contract the test creates; x is appended to the init code).
+    One path ends normally, the other is stopped by halmos' internal error before the planted failure:
+    never a clean PASS."""
+    sig = "check_stuck(uint256)"
+    where, kind = p["where"], p["kind"]
+    arg = [("push", 4), "CALLDATALOAD"]
+    h_rt = assemble(unsupported_items(kind, arg) + ["STOP"])            # helper runtime: the feature, then STOP
+    # constructor: x = the last 32 bytes of the init code
+    ctor_x = [("push", 32), "DUP1", "CODESIZE", "SUB", "PUSH0", "CODECOPY", "PUSH0", "MLOAD"]
+    blob = creation_code(h_rt) if where != "create" else assemble(unsupported_items(kind, ctor_x) + ["PUSH0", "PUSH0", "RETURN"])
+
+    def t_items(off):
+        it = l3.dispatcher([("setUp()", "S"), (sig, "F")])
+        it += [("label", "S"), "POP"]
+        if where in ("call", "staticcall", "delegatecall"):
+            it += [("pushn", 2, len(blob)), ("pushn", 2, off), "PUSH0", "CODECOPY", ("pushn", 2, len(blob)), "PUSH0", "PUSH0", "CREATE", "PUSH0", "SSTORE"]
+        it += ["STOP"]
+        it += [("label", "F"), "POP", ("push", 4), "CALLDATALOAD", ("push", 77), "EQ", ("ref", "OUT"), "JUMPI"]
+        if where == "top":
+            it += unsupported_items(kind, arg)
+        elif where == "create":
+            it += [("pushn", 2, len(blob)), ("pushn", 2, off), "PUSH0", "CODECOPY", ("push", 4), "CALLDATALOAD", ("pushn", 2, len(blob)), "MSTORE",
+                   ("pushn", 2, len(blob) + 32), "PUSH0", "PUSH0", "CREATE", "POP"]
+        else:
+            it += ["CALLDATASIZE", "PUSH0", "PUSH0", "CALLDATACOPY"]          # forward the calldata
+            pre = ["PUSH0", "PUSH0", "CALLDATASIZE", "PUSH0"]                   # retSize retOff argSize argOff
+            if where == "call":
+                it += pre + ["PUSH0", "PUSH0", "SLOAD", ("pushn", 3, 0xFFFFFF), "CALL", "POP"]
+            elif where == "staticcall":
+                it += pre + ["PUSH0", "SLOAD", ("pushn", 3, 0xFFFFFF), "STATICCALL", "POP"]
+            else:
+                it += pre + ["PUSH0", "SLOAD", ("pushn", 3, 0xFFFFFF), "DELEGATECALL", "POP"]
+        it += l3.panic_items(1) + [("label", "OUT"), "STOP"]
+        return it + [("raw", blob)]
+
+    tmp = assemble(t_items(0))
+    off = len(tmp) - len(blob)
+    t_rt = assemble(t_items(off))
+    assert t_rt[off:] == blob
+    t = l3.Contract("T", [("setUp", []), ("check_stuck", ["uint256"])], t_rt)
+    truth = [[[l3.FOUNDRY_TEST, l3.selector("setUp()").hex()], [l3.FOUNDRY_TEST, (l3.selector(sig) + x.to_bytes(32, "big")).hex()]] for x in (0, 32, 77)]
+    return {"contracts": [t], "test": sig, "truth": truth, "concrete_loop": False}
+
+
+def build_stuck_setup(p):
+    """setUpSymbolic(uint256 x): <unsupported feature: in the body ("top") or in a helper created and called here
+    ("call")>; slot0 = 1.   check_flag(): if (slot0 == 1) Panic(1).
+    Every concrete setUpSymbolic(x) (small x) completes and sets the flag, so check_flag() fails; halmos cannot
+    continue the only path of setUp: no test of the contract may be a clean PASS."""
+    ssig, tsig = "setUpSymbolic(uint256)", "check_flag()"
+    where, kind = p["where"], p["kind"]
+    arg = [("push", 4), "CALLDATALOAD"]
+    blob = creation_code(assemble(unsupported_items(kind, arg) + ["STOP"]))
+
+    def t_items(off):
+        it = l3.dispatcher([(ssig, "S"), (tsig, "F")])
+        it += [("label", "S"), "POP"]
+        if where == "call":
+            it += [("pushn", 2, len(blob)), ("pushn", 2, off), "PUSH0", "CODECOPY", ("pushn", 2, len(blob)), "PUSH0", "PUSH0", "CREATE"]   # helper address
+            it += ["CALLDATASIZE", "PUSH0", "PUSH0", "CALLDATACOPY"]
+            it += ["PUSH0", "PUSH0", "CALLDATASIZE", "PUSH0", "PUSH0", "DUP6", ("pushn", 3, 0xFFFFFF), "CALL", "POP", "POP"]
+        else:
+            it += unsupported_items(kind, arg)
+        it += [("push", 1), "PUSH0", "SSTORE", "STOP"]
+        it += [("label", "F"), "POP", "PUSH0", "SLOAD", ("push", 1), "EQ", ("ref", "P"), "JUMPI", "STOP", ("label", "P")] + l3.panic_items(1)
+        return it + [("raw", blob)]
+
+    tmp = assemble(t_items(0))
+    off = len(tmp) - len(blob)
+    rt = assemble(t_items(off))
+    assert rt[off:] == blob
+    t = l3.Contract("T", [("setUpSymbolic", ["uint256"]), ("check_flag", [])], rt)
+    truth = [[[l3.FOUNDRY_TEST, (l3.selector(ssig) + x.to_bytes(32, "big")).hex()], [l3.FOUNDRY_TEST, l3.selector(tsig).hex()]] for x in (0, 32)]
+    return {"contracts": [t], "test": tsig, "truth": truth, "concrete_loop": False}
+
+
+BUILDERS = {"stuck_setup": build_stuck_setup, "regular": build_regular, "depth": build_depth, "width": build_width, "setup": build_setup, "invariant": build_invariant,
+            "depth_multi": build_depth_multi, "stuck": build_stuck}
 
 
 def build(case):
@@ -219,9 +417,26 @@ def gen_cases(r, tier):
         for pattern in ([0, (1 << k) - 1] if tier != "quick" else [(1 << k) - 1]):
             cases.append({"family": "width", "params": {"k": k, "pattern": pattern}, "options": ["--width", str(w)]})
     # setUp
-    for K, L in ([(3, 2)] if tier == "quick" else [(3, 1), (3, 2), (5, 4), (2, 4)]):
+    for K, L in ([(3, 2), (2, 4)] if tier == "quick" else [(3, 1), (3, 2), (5, 4), (2, 4), (1, 4)]):
         cases.append({"family": "setup", "params": {"K": K, "form": "while"}, "options": ["--loop", str(L)]})
     # invariant target
     for K, L in ([(7, 2)] if tier == "quick" else [(7, 2), (5, 1), (2, 2), (9, 4)]):
         cases.append({"family": "invariant", "params": {"K": K}, "options": ["--loop", str(L), "--invariant-depth", "2"]})
+    # several tests in one run under --depth (per-test reports): overloads, a control, the same signature in a second contract
+    layouts = [[["T", ["check_walk(uint256)", "check_walk(uint256,uint256)", "check_other(uint256)"]], ["U", ["check_walk(uint256)"]]]]
+    if tier != "quick":
+        layouts += [[["T", ["check_a(uint256)", "check_a(uint256,uint256)", "check_a(uint256,uint256,uint256)"]]],
+                    [["A", ["check_x(uint256)"]], ["B", ["check_x(uint256)"]], ["C", ["check_x(uint256,uint256)"]]]]
+    for lay in layouts:
+        for d in ([200] if tier == "quick" else [200, 100000]):
+            cases.append({"family": "depth_multi", "params": {"n": 60, "layout": lay}, "options": ["--depth", str(d)]})
+    # a path stopped by an unsupported feature, at every call depth
+    stuck = [("top", "mstore_sym"), ("call", "mstore_sym"), ("staticcall", "mload_sym"), ("delegatecall", "sha3_sym"), ("create", "mstore_sym")]
+    if tier != "quick":
+        stuck = [(w, k) for w in ("top", "call", "staticcall", "delegatecall", "create") for k in ("mstore_sym", "mload_sym", "sha3_sym")]
+    for w, k in stuck:
+        cases.append({"family": "stuck", "params": {"where": w, "kind": k}, "options": []})
+    # ... and in setUp
+    for w, k in ([("call", "mstore_sym"), ("top", "mstore_sym")] if tier == "quick" else [(w, k) for w in ("call", "top") for k in ("mstore_sym", "mload_sym", "sha3_sym")]):
+        cases.append({"family": "stuck_setup", "params": {"where": w, "kind": k}, "options": []})
     return cases
